@@ -25,9 +25,42 @@ Qed.
 
 Lemma P_b_sound : forall cs : case, P_b cs = true ->
   Forall (query_ok (c_cfg cs) (c_deflevel cs)) (c_queries cs) /\
+  Forall (Forall (query_ok (c_cfg cs) (c_deflevel cs))) (c_parallel cs) /\
   later_ok (c_cfg cs, c_deflevel cs) (c_later cs).
 Proof.
-  intros cs H. unfold P_b in H. apply andb_true_iff in H as [H Hl]. rewrite forallb_forall in H. split.
+  intros cs H. unfold P_b in H. apply andb_true_iff in H as [H Hl].
+  apply andb_true_iff in H as [H Hp]. rewrite forallb_forall in H. split; [|split].
   - apply Forall_forall. intros q Hq. apply P_query_sound, H, Hq.
+  - rewrite forallb_forall in Hp. apply Forall_forall. intros w Hw. specialize (Hp w Hw).
+    rewrite forallb_forall in Hp. apply Forall_forall. intros q Hq. apply P_query_sound, Hp, Hq.
   - apply over_later_sound, Hl.
+Qed.
+
+(* The property's relation determines the value: two calls with the same arguments that both satisfy
+   it on one configuration have the same answer. *)
+Lemma query_ok_same_answer : forall c def q1 q2,
+  query_ok c def q1 -> query_ok c def q2 -> same_answer q1 q2.
+Proof.
+  intros c def q1 q2 H1 H2.
+  destruct q1 as [s1 o1 | s1 o1 | s1 o1 | s1 o1 | v1 s1 o1 | s1];
+  destruct q2 as [s2 o2 | s2 o2 | s2 o2 | s2 o2 | v2 s2 o2 | s2];
+  cbn [same_answer query_ok] in *; try exact I.
+  - intros ->. destruct H1 as [x1 [R1 E1]]. destruct H2 as [x2 [R2 E2]].
+    apply resolves_iff_reference in R1. apply resolves_iff_reference in R2. congruence.
+  - intros ->. apply resolves_iff_reference in H1. apply resolves_iff_reference in H2. congruence.
+  - intros ->. apply resolves_iff_reference in H1. apply resolves_iff_reference in H2. congruence.
+  - intros ->. apply resolves_iff_reference in H1. apply resolves_iff_reference in H2. congruence.
+  - intros -> ->. apply resolves_iff_reference in H1. apply resolves_iff_reference in H2. congruence.
+Qed.
+
+Lemma P_b_callers_agree : forall cs : case, P_b cs = true ->
+  forall q1 q2, In q1 (calls_on_installed cs) -> In q2 (calls_on_installed cs) -> same_answer q1 q2.
+Proof.
+  intros cs H q1 q2 H1 H2. destruct (P_b_sound cs H) as [Hs [Hp _]].
+  assert (Hall : forall q, In q (calls_on_installed cs) -> query_ok (c_cfg cs) (c_deflevel cs) q).
+  { intros q Hq. unfold calls_on_installed in Hq. apply in_app_or in Hq as [Hq|Hq].
+    - rewrite Forall_forall in Hs. apply Hs, Hq.
+    - apply in_concat in Hq as [w [Hw Hq]]. rewrite Forall_forall in Hp. specialize (Hp w Hw).
+      rewrite Forall_forall in Hp. apply Hp, Hq. }
+  eapply query_ok_same_answer; eauto.
 Qed.
